@@ -6,7 +6,7 @@ use crate::monitor::{Case, Ctx};
 use crate::{PropDef, Tier, Unit};
 use bigdecimal::{BigDecimal, Context, RoundingMode};
 use num_bigint::BigInt;
-use num_traits::Zero;
+use num_traits::{Signed, Zero};
 use std::num::NonZeroU64;
 
 pub fn def() -> PropDef {
@@ -19,7 +19,7 @@ pub fn def() -> PropDef {
             "WithPrec_Round", "WithPrec_TermApplied", "WithPrec_LeadingZeroRemainder", "WithPrec_Pad", "WithPrec_Equal",
             "Wsr_RoundInside", "Wsr_Carry", "Wsr_CarryNewDigit", "Wsr_Extend", "AddRef_Unaligned", "AddRef_Aligned",
         ],
-        rule: "exhaustive small scope: every |n| < 2000 x scales -2..3 x p 1..5 x 7 modes through all entry points; then seeded decimals of 1..3000 digits (tie tails, near ties, all-nines) x precision p from 1..digits+5 (every p for inputs of <= 12 digits, otherwise sampled plus digits-1, digits, digits+1) x 7 modes through with_precision_round, with_prec (value and its negation), Context::round_decimal, round_decimal_ref from &BigDecimal / BigDecimalRef / &BigInt, BigDecimalRef::round_with_context, and Context::add_refs / add_refs_into on sums whose exact value needs more than p digits (including cancelling sums and operands far apart in magnitude); each result compared by value with the model's rounding at the p-th digit, exact zero-padded representation when digits <= p. distinct = distinct (input, p, mode) tuples; non-trivial = input has more than p digits (digits are discarded)",
+        rule: "exhaustive small scope: every |n| < 2000 x scales -2..3 x p 1..5 x 7 modes through all entry points; then seeded decimals of 1..3000 digits (tie tails, near ties, all-nines) x precision p from 1..digits+5 (every p for inputs of <= 12 digits, otherwise sampled plus digits-1, digits, digits+1) x 7 modes through with_precision_round, with_prec (value and its negation), Context::round_decimal, round_decimal_ref from &BigDecimal / BigDecimalRef / &BigInt, BigDecimalRef::round_with_context, and Context::add_refs / add_refs_into on sums whose exact value needs more than p digits (including cancelling sums, operands far apart in magnitude, and small operands placed 4 below .. 1 above the rounding position of a power-of-ten / all-nines / random large operand); exhaustive machine-word boundary integers with 0..22 appended digits; each result compared by value with the model's rounding at the p-th digit, exact zero-padded representation when digits <= p. distinct = distinct (input, p, mode) tuples; non-trivial = input has more than p digits (digits are discarded)",
     }
 }
 
@@ -31,6 +31,8 @@ fn plan(tier: Tier) -> Vec<Unit> {
             v.extend(crate::util::split_budget("allp", 6_000, 200));
             v.extend(crate::util::split_budget("ties", 150_000, 2_000));
             v.extend(crate::util::split_budget("sums", 150_000, 2_000));
+            v.extend(crate::util::split_budget("sumpos", 150_000, 2_000));
+            v.extend(crate::util::split_budget("words", gen::word_values().len() as u64, 8));
             v
         }
         Tier::Thorough => {
@@ -39,6 +41,8 @@ fn plan(tier: Tier) -> Vec<Unit> {
             v.extend(crate::util::split_budget("allp", 400_000, 2_000));
             v.extend(crate::util::split_budget("ties", 12_000_000, 10_000));
             v.extend(crate::util::split_budget("sums", 8_000_000, 10_000));
+            v.extend(crate::util::split_budget("sumpos", 8_000_000, 10_000));
+            v.extend(crate::util::split_budget("words", gen::word_values().len() as u64, 8));
             v
         }
         Tier::Miri => {
@@ -120,6 +124,66 @@ fn run_unit(unit: &Unit, r: &mut Rng, ctx: &mut Ctx) {
                         check_case(&case, ctx);
                     }
                 }
+            }
+        }
+        "words" => {
+            // exhaustive: unscaled integers on the machine-word boundaries, followed by 0..=22 further digits
+            // (zeros, nines, 50..0, 49..9, 50..01), rounded so that exactly those digits (and 0..2 more) are dropped
+            let w = gen::word_values();
+            for idx in unit.start..unit.start + unit.count {
+                let base = &w[idx as usize % w.len()];
+                let nd = ndigits(base);
+                for extra in 0u64..=22 {
+                    let tails: Vec<BigInt> = if extra == 0 { vec![BigInt::zero()] } else {
+                        vec![BigInt::zero(), pow10(extra) - 1, pow10(extra - 1) * 5, pow10(extra - 1) * 5 - 1, pow10(extra - 1) * 5 + 1]
+                    };
+                    for t in tails {
+                        let n = if base.is_negative() { base * pow10(extra) - &t } else { base * pow10(extra) + &t };
+                        let total = ndigits(&n);
+                        for p in [nd, nd.saturating_sub(1).max(1), nd.saturating_sub(2).max(1), total.saturating_sub(19).max(1), total.saturating_sub(20).max(1)] {
+                            for &mode in MODES.iter() {
+                                let case = Case::new("round").push(Dec::new(n.clone(), 3).tok()).push(p).push(mode_name(mode));
+                                check_case(&case, ctx);
+                            }
+                        }
+                    }
+                }
+            }
+            if unit.start == 0 {
+                ctx.exhaustive_notes.push(format!("C07 word boundaries: {} unscaled integers on machine-word / power-of-ten boundaries x 0..22 appended digits (5 tail shapes) x 5 precisions (the boundary's own digits, 1 and 2 fewer, 19 and 20 dropped) x 7 modes", w.len()));
+            }
+        }
+        "sumpos" => {
+            // two-operand sums whose small operand starts at a chosen place relative to the rounding position of
+            // the large one (4 below ... 1 above), powers of ten and all-nines favoured, opposite signs favoured:
+            // cancellation that moves the leading digit, sticky digits landing on the rounding digit
+            for _ in 0..unit.count {
+                let p = match r.below(5) { 0 => 1 + r.below(6), 1 => 100, 2 => 1 + r.below(120), _ => 1 + r.below(40) };
+                let la = match r.below(3) { 0 => 1, 1 => 1 + r.below(p + 3), _ => 1 + r.below(6) } as usize;
+                let an: BigInt = match r.below(5) {
+                    0 | 1 => pow10(la as u64 - 1),                       // 1, 10, 100: a power of ten however written
+                    2 => pow10(la as u64) - 1,                           // 99..9
+                    3 => pow10(la as u64 - 1) + 1,                       // 10..01
+                    _ => gen::digit_string(r, la).parse().unwrap(),
+                };
+                let a = Dec::new(if r.bool() { -an } else { an }, r.range(-60, 60));
+                // exponent of the p-th significant digit of a
+                let ep = (ndigits(&a.n) as i64 - a.s - 1) - (p as i64 - 1);
+                let off = r.range(-4, 1);
+                let bn: BigInt = match r.below(6) {
+                    0 => BigInt::from(r.range(1, 9)),
+                    1 => BigInt::from(*r.pick(&[5i64, 50, 500, 49, 499, 51, 501, 6, 60, 4, 45, 55, 95, 99, 1, 10])),
+                    2 => BigInt::from(r.range(10, 999)),
+                    3 => { let l = 1 + r.below(30) as usize; gen::digit_string(r, l).parse().unwrap() }
+                    4 => { let l = 1 + r.below(8); pow10(l) / 2 }
+                    _ => { let l = 1 + r.below(8); pow10(l) / 2 + r.range(-1, 1) }
+                };
+                let bneg = if r.chance(3, 4) { !a.n.is_negative() } else { a.n.is_negative() };
+                let bs = ndigits(&bn) as i64 - 1 - (ep + off);
+                let b = Dec::new(if bneg { -bn } else { bn }, bs);
+                let mode = *r.pick(&MODES);
+                let case = Case::new("sum").push(a.tok()).push(b.tok()).push(p).push(mode_name(mode));
+                check_case(&case, ctx);
             }
         }
         "sums" => {
